@@ -953,7 +953,7 @@ pub fn config_case(inp: &Input, dwarf_ok: bool) -> Value {
         .chain((0..64u32).filter(|b| b & 4 != 0 && b & 8 == 0 && b & 48 == 0).map(|b| (b, true, true)))
         .collect();
     for (bits, strict, late) in vectors {
-        let cfg = Cfg { names: bits & 1 != 0, producers: bits & 2 != 0, dwarf: bits & 4 != 0, xform: bits & 8 != 0, stable: bits & 16 != 0, synth: bits & 32 != 0, probe: false };
+        let cfg = Cfg { names: bits & 1 != 0, producers: bits & 2 != 0, dwarf: bits & 4 != 0, xform: bits & 8 != 0, stable: bits & 16 != 0, synth: bits & 32 != 0, instr_loc: false, probe: false };
         if cfg.dwarf && !dwarf_ok {
             continue;
         }
@@ -1807,7 +1807,8 @@ pub fn insert_marked_instructions(m: &mut walrus::Module, seed: u64) -> usize {
 }
 
 pub fn xform_case(inp: &Input, variant: &str) -> Value {
-    let cfg = Cfg { xform: true, probe: true, ..Default::default() };
+    // "plain-loc": like "plain", with a user callback that assigns the locations (the identity: what the default does)
+    let cfg = Cfg { xform: true, probe: true, instr_loc: variant == "plain-loc", ..Default::default() };
     let id = format!("{}~{}", inp.id, variant);
     let parsed = match run::parse(&inp.bytes, &cfg) {
         Ok(p) => p,
